@@ -4,7 +4,7 @@ out=$1; shift
 for s in "$@"; do
   line="$s:"
   for i in $(seq -w 1 20); do
-    VERIF_REPO=/tmp/seedwt/$s VERIF_RIDEALONG=0 VERIF_JOBS=4 ./vcheck C$i --tier quick > /tmp/seedout/matrix_$s_C$i.log 2>&1; code=$?
+    VERIF_REPO=/tmp/seedwt/$s VERIF_RIDEALONG=0 VERIF_NO_EVIDENCE=1 VERIF_JOBS=4 ./vcheck C$i --tier quick > /tmp/seedout/matrix_$s_C$i.log 2>&1; code=$?
     if [ $code -eq 1 ]; then line="$line C$i"; elif [ $code -eq 2 ]; then line="$line (C$i:inconclusive)"; fi
   done
   echo "$line" >> $out
